@@ -1,0 +1,562 @@
+//! Verification hook (compiled only with `--cfg disjoint_impls_verif`).
+//!
+//! A test driver that reads request lines from `$DISJOINT_IMPLS_VERIF_IN`, calls the
+//! crate's own functions and writes one response line per request to
+//! `$DISJOINT_IMPLS_VERIF_OUT`. It replicates none of the crate's logic: it only parses
+//! source text with `syn`, calls into the crate and serializes ASTs/results as
+//! S-expressions `(Kind "data" child ...)` for the external model checker in /verif.
+
+#![allow(dead_code)]
+
+use std::fmt::Write as _;
+
+use super::*;
+
+type R = Result<String, String>;
+
+fn esc(s: &str) -> String {
+    let mut out = String::with_capacity(s.len() + 2);
+    for c in s.chars() {
+        match c {
+            '"' => out.push_str("\\\""),
+            '\\' => out.push_str("\\\\"),
+            '\t' | '\n' | '\r' => out.push(' '),
+            c => out.push(c),
+        }
+    }
+    out
+}
+
+fn node(kind: &str, data: &str, kids: Vec<String>) -> String {
+    let mut out = String::new();
+    write!(out, "({} \"{}\"", kind, esc(data)).unwrap();
+    for kid in kids {
+        out.push(' ');
+        out.push_str(&kid);
+    }
+    out.push(')');
+    out
+}
+
+fn leaf(kind: &str, data: &str) -> String {
+    node(kind, data, Vec::new())
+}
+
+fn toks<T: ToTokens>(t: &T) -> String {
+    t.to_token_stream().to_string()
+}
+
+fn no_attrs(attrs: &[syn::Attribute]) -> Result<(), String> {
+    if attrs.is_empty() {
+        Ok(())
+    } else {
+        Err("attributes".into())
+    }
+}
+
+fn ser_opt<T>(opt: Option<&T>, f: impl Fn(&T) -> R) -> R {
+    Ok(match opt {
+        None => leaf("ONone", ""),
+        Some(x) => node("OSome", "", vec![f(x)?]),
+    })
+}
+
+fn ser_list<'a, T: 'a>(items: impl IntoIterator<Item = &'a T>, f: impl Fn(&T) -> R) -> R {
+    let kids = items.into_iter().map(f).collect::<Result<Vec<_>, _>>()?;
+    Ok(node("List", "", kids))
+}
+
+pub fn ser_lifetime(lt: &syn::Lifetime) -> R {
+    Ok(leaf("Lifetime", &lt.ident.to_string()))
+}
+
+fn ser_bound_lifetimes(bl: &syn::BoundLifetimes) -> R {
+    let kids = bl
+        .lifetimes
+        .iter()
+        .map(|param| match param {
+            syn::GenericParam::Lifetime(lt) => {
+                no_attrs(&lt.attrs)?;
+                if !lt.bounds.is_empty() {
+                    return Err("bounded lifetime in for<..>".into());
+                }
+                ser_lifetime(&lt.lifetime)
+            }
+            _ => Err("non-lifetime in for<..>".into()),
+        })
+        .collect::<Result<Vec<_>, _>>()?;
+    Ok(node("BoundLts", "", kids))
+}
+
+fn ser_ret(ret: &syn::ReturnType) -> R {
+    Ok(match ret {
+        syn::ReturnType::Default => leaf("RetDefault", ""),
+        syn::ReturnType::Type(_, ty) => node("RetType", "", vec![ser_type(ty)?]),
+    })
+}
+
+pub fn ser_trait_bound(tb: &syn::TraitBound) -> R {
+    let modifier = match tb.modifier {
+        syn::TraitBoundModifier::None => "",
+        syn::TraitBoundModifier::Maybe(_) => "?",
+    };
+    Ok(node(
+        "BTrait",
+        modifier,
+        vec![
+            ser_opt(tb.lifetimes.as_ref(), ser_bound_lifetimes)?,
+            ser_path(&tb.path)?,
+        ],
+    ))
+}
+
+pub fn ser_bound(bound: &syn::TypeParamBound) -> R {
+    match bound {
+        syn::TypeParamBound::Trait(tb) => ser_trait_bound(tb),
+        syn::TypeParamBound::Lifetime(lt) => ser_lifetime(lt),
+        _ => Err("bound kind".into()),
+    }
+}
+
+fn ser_garg(arg: &syn::GenericArgument) -> R {
+    use syn::GenericArgument::*;
+    match arg {
+        Lifetime(lt) => ser_lifetime(lt),
+        Type(ty) => Ok(node("GType", "", vec![ser_type(ty)?])),
+        Const(expr) => Ok(node("GConst", "", vec![ser_expr(expr)?])),
+        AssocType(x) => Ok(node(
+            "GAssocType",
+            &x.ident.to_string(),
+            vec![ser_opt(x.generics.as_ref(), ser_angle)?, ser_type(&x.ty)?],
+        )),
+        AssocConst(x) => Ok(node(
+            "GAssocConst",
+            &x.ident.to_string(),
+            vec![ser_opt(x.generics.as_ref(), ser_angle)?, ser_expr(&x.value)?],
+        )),
+        _ => Err("generic argument kind".into()),
+    }
+}
+
+fn ser_angle(args: &syn::AngleBracketedGenericArguments) -> R {
+    if args.colon2_token.is_some() {
+        return Err("turbofish in path".into());
+    }
+    let kids = args.args.iter().map(ser_garg).collect::<Result<Vec<_>, _>>()?;
+    Ok(node("AAngle", "", kids))
+}
+
+fn ser_path_args(args: &syn::PathArguments) -> R {
+    match args {
+        syn::PathArguments::None => Ok(leaf("ANone", "")),
+        syn::PathArguments::AngleBracketed(x) => ser_angle(x),
+        syn::PathArguments::Parenthesized(x) => Ok(node(
+            "AParen",
+            "",
+            vec![ser_list(&x.inputs, ser_type)?, ser_ret(&x.output)?],
+        )),
+    }
+}
+
+pub fn ser_path(path: &syn::Path) -> R {
+    let kids = path
+        .segments
+        .iter()
+        .map(|seg| {
+            Ok(node(
+                "Seg",
+                &seg.ident.to_string(),
+                vec![ser_path_args(&seg.arguments)?],
+            ))
+        })
+        .collect::<Result<Vec<_>, String>>()?;
+    Ok(node(
+        "Path",
+        if path.leading_colon.is_some() { "::" } else { "" },
+        kids,
+    ))
+}
+
+fn ser_qself(qself: &syn::QSelf) -> R {
+    Ok(node(
+        "QSelf",
+        &format!(
+            "{}{}",
+            qself.position,
+            if qself.as_token.is_some() { "as" } else { "" }
+        ),
+        vec![ser_type(&qself.ty)?],
+    ))
+}
+
+pub fn ser_type(ty: &syn::Type) -> R {
+    use syn::Type::*;
+    Ok(match ty {
+        Array(x) => node("TArray", "", vec![ser_type(&x.elem)?, ser_expr(&x.len)?]),
+        BareFn(x) => {
+            let abi = ser_opt(x.abi.as_ref(), |abi| {
+                Ok(node(
+                    "Abi",
+                    "",
+                    vec![ser_opt(abi.name.as_ref(), |name| {
+                        Ok(leaf("LitStr", &toks(name)))
+                    })?],
+                ))
+            })?;
+            let inputs = ser_list(&x.inputs, |arg| {
+                no_attrs(&arg.attrs)?;
+                Ok(node(
+                    "BareFnArg",
+                    &arg.name.as_ref().map(|(name, _)| name.to_string()).unwrap_or_default(),
+                    vec![ser_type(&arg.ty)?],
+                ))
+            })?;
+            node(
+                "TBareFn",
+                &format!(
+                    "{}|{}",
+                    if x.unsafety.is_some() { "unsafe" } else { "" },
+                    x.variadic.as_ref().map(toks).unwrap_or_default()
+                ),
+                vec![
+                    ser_opt(x.lifetimes.as_ref(), ser_bound_lifetimes)?,
+                    abi,
+                    inputs,
+                    ser_ret(&x.output)?,
+                ],
+            )
+        }
+        Group(x) => node("TGroup", "", vec![ser_type(&x.elem)?]),
+        ImplTrait(x) => node(
+            "TImplTrait",
+            "",
+            x.bounds.iter().map(ser_bound).collect::<Result<Vec<_>, _>>()?,
+        ),
+        Infer(_) => leaf("TInfer", ""),
+        Macro(x) => leaf("TMacro", &toks(x)),
+        Never(_) => leaf("TNever", ""),
+        Paren(x) => node("TParen", "", vec![ser_type(&x.elem)?]),
+        Path(x) => node(
+            "TPath",
+            "",
+            vec![ser_opt(x.qself.as_ref(), ser_qself)?, ser_path(&x.path)?],
+        ),
+        Ptr(x) => node(
+            "TPtr",
+            if x.mutability.is_some() { "mut" } else { "const" },
+            vec![ser_type(&x.elem)?],
+        ),
+        Reference(x) => node(
+            "TRef",
+            if x.mutability.is_some() { "mut" } else { "" },
+            vec![ser_opt(x.lifetime.as_ref(), ser_lifetime)?, ser_type(&x.elem)?],
+        ),
+        Slice(x) => node("TSlice", "", vec![ser_type(&x.elem)?]),
+        TraitObject(x) => node(
+            "TTraitObject",
+            "",
+            x.bounds.iter().map(ser_bound).collect::<Result<Vec<_>, _>>()?,
+        ),
+        Tuple(x) => node(
+            "TTuple",
+            "",
+            x.elems.iter().map(ser_type).collect::<Result<Vec<_>, _>>()?,
+        ),
+        _ => return Err("type kind".into()),
+    })
+}
+
+fn ser_block(block: &syn::Block) -> R {
+    let kids = block
+        .stmts
+        .iter()
+        .map(|stmt| match stmt {
+            syn::Stmt::Expr(expr, None) => ser_expr(expr),
+            _ => Err("statement kind".into()),
+        })
+        .collect::<Result<Vec<_>, _>>()?;
+    Ok(node("Block", "", kids))
+}
+
+pub fn ser_expr(expr: &syn::Expr) -> R {
+    use syn::Expr::*;
+    Ok(match expr {
+        Array(x) => {
+            no_attrs(&x.attrs)?;
+            node(
+                "EArray",
+                "",
+                x.elems.iter().map(ser_expr).collect::<Result<Vec<_>, _>>()?,
+            )
+        }
+        Assign(x) => {
+            no_attrs(&x.attrs)?;
+            node("EAssign", "", vec![ser_expr(&x.left)?, ser_expr(&x.right)?])
+        }
+        Binary(x) => {
+            no_attrs(&x.attrs)?;
+            node(
+                "EBinary",
+                &toks(&x.op),
+                vec![ser_expr(&x.left)?, ser_expr(&x.right)?],
+            )
+        }
+        Block(x) => {
+            no_attrs(&x.attrs)?;
+            if x.label.is_some() {
+                return Err("label".into());
+            }
+            node("EBlock", "", vec![leaf("ONone", ""), ser_block(&x.block)?])
+        }
+        Call(x) => {
+            no_attrs(&x.attrs)?;
+            let mut kids = vec![ser_expr(&x.func)?];
+            for arg in &x.args {
+                kids.push(ser_expr(arg)?);
+            }
+            node("ECall", "", kids)
+        }
+        Cast(x) => {
+            no_attrs(&x.attrs)?;
+            node("ECast", "", vec![ser_expr(&x.expr)?, ser_type(&x.ty)?])
+        }
+        Const(x) => {
+            no_attrs(&x.attrs)?;
+            node("EConst", "", vec![ser_block(&x.block)?])
+        }
+        Field(x) => {
+            no_attrs(&x.attrs)?;
+            node("EField", &toks(&x.member), vec![ser_expr(&x.base)?])
+        }
+        Group(x) => {
+            no_attrs(&x.attrs)?;
+            node("EGroup", "", vec![ser_expr(&x.expr)?])
+        }
+        If(x) => {
+            no_attrs(&x.attrs)?;
+            node(
+                "EIf",
+                "",
+                vec![
+                    ser_expr(&x.cond)?,
+                    ser_block(&x.then_branch)?,
+                    ser_opt(x.else_branch.as_ref(), |(_, e)| ser_expr(e))?,
+                ],
+            )
+        }
+        Index(x) => {
+            no_attrs(&x.attrs)?;
+            node("EIndex", "", vec![ser_expr(&x.expr)?, ser_expr(&x.index)?])
+        }
+        Infer(x) => {
+            no_attrs(&x.attrs)?;
+            leaf("EInfer", "")
+        }
+        Lit(x) => {
+            no_attrs(&x.attrs)?;
+            leaf("ELit", &toks(&x.lit))
+        }
+        MethodCall(x) => {
+            no_attrs(&x.attrs)?;
+            let mut kids = vec![
+                ser_expr(&x.receiver)?,
+                ser_opt(x.turbofish.as_ref(), |tf| {
+                    let kids = tf.args.iter().map(ser_garg).collect::<Result<Vec<_>, _>>()?;
+                    Ok(node("AAngle", "", kids))
+                })?,
+            ];
+            for arg in &x.args {
+                kids.push(ser_expr(arg)?);
+            }
+            node("EMethodCall", &x.method.to_string(), kids)
+        }
+        Paren(x) => {
+            no_attrs(&x.attrs)?;
+            node("EParen", "", vec![ser_expr(&x.expr)?])
+        }
+        Path(x) => {
+            no_attrs(&x.attrs)?;
+            node(
+                "EPath",
+                "",
+                vec![ser_opt(x.qself.as_ref(), ser_qself)?, ser_path(&x.path)?],
+            )
+        }
+        Range(x) => {
+            no_attrs(&x.attrs)?;
+            node(
+                "ERange",
+                &toks(&x.limits),
+                vec![
+                    ser_opt(x.start.as_ref(), |e| ser_expr(e))?,
+                    ser_opt(x.end.as_ref(), |e| ser_expr(e))?,
+                ],
+            )
+        }
+        Reference(x) => {
+            no_attrs(&x.attrs)?;
+            node(
+                "ERef",
+                if x.mutability.is_some() { "mut" } else { "" },
+                vec![ser_expr(&x.expr)?],
+            )
+        }
+        Repeat(x) => {
+            no_attrs(&x.attrs)?;
+            node("ERepeat", "", vec![ser_expr(&x.expr)?, ser_expr(&x.len)?])
+        }
+        Tuple(x) => {
+            no_attrs(&x.attrs)?;
+            node(
+                "ETuple",
+                "",
+                x.elems.iter().map(ser_expr).collect::<Result<Vec<_>, _>>()?,
+            )
+        }
+        Unary(x) => {
+            no_attrs(&x.attrs)?;
+            node("EUnary", &toks(&x.op), vec![ser_expr(&x.expr)?])
+        }
+        Unsafe(x) => {
+            no_attrs(&x.attrs)?;
+            node("EUnsafe", "", vec![ser_block(&x.block)?])
+        }
+        _ => return Err("expression kind".into()),
+    })
+}
+
+fn ser_group_id(id: &ImplGroupId) -> R {
+    Ok(node(
+        "GroupId",
+        "",
+        vec![ser_opt(id.0.as_ref(), ser_path)?, ser_type(&id.1)?],
+    ))
+}
+
+fn ser_subs(subs: &Option<Substitutions>) -> R {
+    Ok(match subs {
+        None => leaf("None", ""),
+        Some(subs) => {
+            let kids = subs
+                .0
+                .iter()
+                .map(|(ident, value)| {
+                    Ok(node(
+                        "Bind",
+                        &ident.to_string(),
+                        vec![match value {
+                            SubstitutionValue::Type(ty) => ser_type(ty)?,
+                            SubstitutionValue::Expr(expr) => ser_expr(expr)?,
+                            SubstitutionValue::Identity => leaf("Id", ""),
+                        }],
+                    ))
+                })
+                .collect::<Result<Vec<_>, String>>()?;
+            node("Subs", "", kids)
+        }
+    })
+}
+
+fn parse<T: syn::parse::Parse>(src: &str) -> Result<T, String> {
+    syn::parse_str::<T>(src).map_err(|e| format!("parse error: {e}: {src}"))
+}
+
+fn parse_group_id(trait_: &str, self_ty: &str) -> Result<ImplGroupId, String> {
+    let trait_ = if trait_ == "-" {
+        None
+    } else {
+        Some(parse::<syn::Path>(trait_)?)
+    };
+    Ok(ImplGroupId(trait_, parse::<syn::Type>(self_ty)?))
+}
+
+/// One request line -> one response line. Fields are separated by tabs.
+fn respond(line: &str) -> R {
+    let fields: Vec<&str> = line.split('\t').collect();
+    let join = |parts: Vec<String>| parts.join("\t");
+
+    match fields.as_slice() {
+        // is_superset on types / expressions / paths / group ids
+        ["sup_ty", a, b] => {
+            let (a, b) = (parse::<syn::Type>(a)?, parse::<syn::Type>(b)?);
+            Ok(join(vec![ser_type(&a)?, ser_type(&b)?, ser_subs(&a.is_superset(&b))?]))
+        }
+        ["sup_expr", a, b] => {
+            let (a, b) = (parse::<syn::Expr>(a)?, parse::<syn::Expr>(b)?);
+            Ok(join(vec![ser_expr(&a)?, ser_expr(&b)?, ser_subs(&a.is_superset(&b))?]))
+        }
+        ["sup_path", a, b] => {
+            let (a, b) = (parse::<syn::Path>(a)?, parse::<syn::Path>(b)?);
+            Ok(join(vec![ser_path(&a)?, ser_path(&b)?, ser_subs(&a.is_superset(&b))?]))
+        }
+        ["sup_gid", ta, a, tb, b] => {
+            let (a, b) = (parse_group_id(ta, a)?, parse_group_id(tb, b)?);
+            Ok(join(vec![
+                ser_group_id(&a)?,
+                ser_group_id(&b)?,
+                ser_subs(&a.is_superset(&b))?,
+            ]))
+        }
+        // reverse substitution of a (bounded type, trait path) key under the substitution
+        // obtained from `general.is_superset(specific)`
+        ["subst", general, specific, bounded, trait_] => {
+            let (general, specific) = (parse::<syn::Type>(general)?, parse::<syn::Type>(specific)?);
+            let key = (
+                Bounded(parse::<syn::Type>(bounded)?),
+                TraitBound(parse::<syn::Path>(trait_)?),
+            );
+            let subs = general.is_superset(&specific);
+            let mut out = vec![
+                ser_type(&general)?,
+                ser_type(&specific)?,
+                ser_type(&key.0.0)?,
+                ser_path(&key.1.0)?,
+                ser_subs(&subs)?,
+            ];
+            if let Some(subs) = &subs {
+                let results = subs
+                    .substitute(&key)
+                    .map(|(bounded, trait_)| {
+                        Ok(node("Key", "", vec![ser_type(&bounded.0)?, ser_path(&trait_.0)?]))
+                    })
+                    .collect::<Result<Vec<_>, String>>()?;
+                out.push(node("Keys", "", results));
+            } else {
+                out.push(leaf("None", ""));
+            }
+            Ok(join(out))
+        }
+        _ => Err(format!("unknown request: {line}")),
+    }
+}
+
+#[test]
+fn driver() {
+    let Ok(input) = std::env::var("DISJOINT_IMPLS_VERIF_IN") else {
+        return;
+    };
+    let output = std::env::var("DISJOINT_IMPLS_VERIF_OUT").expect("DISJOINT_IMPLS_VERIF_OUT");
+
+    let requests = std::fs::read_to_string(input).unwrap();
+    let mut responses = String::new();
+
+    std::panic::set_hook(Box::new(|_| {}));
+    for line in requests.lines() {
+        let response = match std::panic::catch_unwind(|| respond(line)) {
+            Ok(Ok(response)) => response,
+            Ok(Err(reason)) => node("Unsupported", &reason, Vec::new()),
+            Err(panic) => {
+                let msg = panic
+                    .downcast_ref::<String>()
+                    .cloned()
+                    .or_else(|| panic.downcast_ref::<&str>().map(|s| s.to_string()))
+                    .unwrap_or_default();
+                node("Crash", &msg, Vec::new())
+            }
+        };
+        responses.push_str(&response);
+        responses.push('\n');
+    }
+
+    std::fs::write(output, responses).unwrap();
+}
